@@ -8,4 +8,5 @@ CONSTANTS Tables = {"a"}
           MaxCrashes = 1
           TailBeyondSync = TRUE
 INVARIANTS FailsOnlyKnown Aligned ReadableCorrect Durable Monotone IndexOK
+VIEW View
 CHECK_DEADLOCK FALSE
